@@ -216,7 +216,79 @@ def _sp_prod_nomerge():
     Space.__mul__ = mul
 
 
+def _geo_union_and():
+    import torch
+    from torchphysics.problem.domains.domainoperations.union import UnionDomain
+    UnionDomain._contains = lambda self, points, params=None: torch.logical_and(
+        self.domain_a._contains(points, *( [params] if params is not None else [])),
+        self.domain_b._contains(points, *( [params] if params is not None else [])))
+
+
+def _geo_cut_nonot():
+    import torch
+    from torchphysics.problem.domains.domainoperations.cut import CutDomain
+    from torchphysics.problem.spaces import Points
+    CutDomain._contains = lambda self, points, params=Points.empty(): torch.logical_and(
+        self.domain_a._contains(points, params), self.domain_b._contains(points, params))
+
+
+def _geo_translate_sign():
+    from torchphysics.problem.domains.domainoperations.translate import Translate
+    from torchphysics.problem.spaces import Points
+
+    def _contains(self, points, params=Points.empty()):
+        tv = self.translate_fn(points.join(params)).reshape(-1, self.space.dim)
+        shifted = points[:, list(self.space.keys())].as_tensor + tv
+        return self.domain._contains(Points(shifted, self.space), params)
+    Translate._contains = _contains
+
+
+def _geo_rotate_forward():
+    import torch
+    from torchphysics.problem.domains.domainoperations.rotate import Rotate
+    from torchphysics.problem.spaces import Points
+
+    def _contains(self, points, params=Points.empty()):
+        tv = self.rotate_around(points.join(params)).reshape(-1, self.space.dim)
+        rm = self.rotation_fn(points.join(params)).reshape(-1, self.space.dim, self.space.dim)
+        sh = points[:, list(self.space.keys())].as_tensor - tv
+        rp = torch.matmul(rm, sh.unsqueeze(-1)).squeeze(-1) + tv
+        return self.domain._contains(Points(rp, self.space), params)
+    Rotate._contains = _contains
+
+
+def _geo_param_row0():
+    import torch
+    from torchphysics.problem.domains.domain2D.circle import Circle
+    old = Circle._compute_center_and_radius
+
+    def f(self, params=None, device="cpu"):
+        c, r = old(self, params, device)
+        if len(c) > 1:
+            c = c[:1].expand_as(c)          # every point judged with the first row's centre
+        return c, r
+    Circle._compute_center_and_radius = f
+
+
+def _geo_par_no_y():
+    import torch
+    from torchphysics.problem.domains.domain2D.parallelogram import Parallelogram
+    from torchphysics.problem.spaces import Points
+
+    def _contains(self, points, params=Points.empty()):
+        origin, _, _, d1, d2 = self._construct_parallelogram(points.join(params), points.device)
+        p = points[:, list(self.space.keys())].as_tensor
+        p = p - origin
+        bx, by = self._solve_lgs(p, d1, d2)
+        in_x = torch.logical_and(0 <= bx, bx <= 1)
+        in_y = 0 <= by
+        return torch.logical_and(in_x, in_y).reshape(-1, 1)
+    Parallelogram._contains = _contains
+
+
 REGISTRY = {
+    "geo_union_and": _geo_union_and, "geo_cut_nonot": _geo_cut_nonot, "geo_translate_sign": _geo_translate_sign,
+    "geo_rotate_forward": _geo_rotate_forward, "geo_param_row0": _geo_param_row0, "geo_par_no_y": _geo_par_no_y,
     "pt_slices_off": _pt_slices_off, "pt_join_order": _pt_join_order, "pt_repeat_interleave": _pt_repeat_interleave,
     "pt_eq_unordered": _pt_eq_unordered, "sp_prod_nomerge": _sp_prod_nomerge,
     "uf_defaults_head": _uf_defaults_head, "uf_pe_nocopy": _uf_pe_nocopy, "uf_positional": _uf_positional,
@@ -226,6 +298,7 @@ REGISTRY = {
     "dl_target_perm": _dl_target_perm, "dl_len_floor": _dl_len_floor, "dl_agg_global_mean": _dl_agg_sum,
 }
 BY_PROPERTY = {
+    "C05": ["geo_union_and", "geo_cut_nonot", "geo_translate_sign", "geo_rotate_forward", "geo_param_row0", "geo_par_no_y"],
     "C12": ["pt_slices_off", "pt_join_order", "pt_repeat_interleave", "pt_eq_unordered", "sp_prod_nomerge"],
     "C13": ["uf_defaults_head", "uf_pe_nocopy", "uf_positional", "uf_pe_forgets_defaults"],
     "C15": ["static_le", "static_restatic_bonus", "adaptive_le", "adaptive_newonly"],
